@@ -299,7 +299,8 @@ def random_selection(p: list | np.ndarray) -> int:
     r = np.random.random()
     c = np.cumsum(p)
     index = [i for i, x in enumerate(c) if r <= x]
-    return index[0]
+    # the cumulative sum can end slightly below 1 (rounding) or be NaN: fall back to the last index
+    return index[0] if len(index) > 0 else len(c) - 1
 
 
 def get_levy_flight_step(
